@@ -395,14 +395,20 @@ def find_synsets(
         cte = f'WITH wordforms(s) AS (VALUES {_vs(forms)})'
         or_norm = 'OR normalized_form IN wordforms' if normalized else ''
         and_rank = '' if search_all_forms else 'AND rank = 0'
+        and_lex = ''
+        if lexicon_rowids:
+            # senses of unselected lexicons (e.g., extensions) don't count
+            and_lex = f'AND _s.lexicon_rowid IN ({_qs(lexicon_rowids)})'
         join = f'''\
           JOIN (SELECT _s.entry_rowid, _s.synset_rowid, _s.entry_rank
                   FROM forms AS f
                   JOIN senses AS _s ON _s.entry_rowid = f.entry_rowid
-                 WHERE (f.form IN wordforms {or_norm}) {and_rank}) AS s
+                 WHERE (f.form IN wordforms {or_norm}) {and_rank} {and_lex}) AS s
             ON s.synset_rowid = ss.rowid
         '''.strip()
         params.extend(forms)
+        if lexicon_rowids:
+            params.extend(lexicon_rowids)
         order = 'ORDER BY s.entry_rowid, s.entry_rank'
     if pos:
         conditions.append('ss.pos = ?')
